@@ -2,6 +2,7 @@ package run
 
 import (
 	"fmt"
+	"os"
 	"strconv"
 	"strings"
 )
@@ -10,7 +11,27 @@ import (
 // Long sources under prefix-only terminals; the observation carries the number of Emit calls per source and
 // the number of probe events seen before the terminal operation started (must be 0).
 func init() {
-	Register("C05", Family{Gen: genC05, Exec: execPipe})
+	Register("C05", Family{
+		Gen: func(c *Ctx) {
+			genC05(c)
+			// asynchronous clause: run-ahead of Buffered / concurrent map (cases "A ...", concurrency family)
+			GenC05Async(c)
+			// tsquery clause: planning with Execute/Filter opens and pulls nothing (cases "Q ...", query family)
+			GenC05Query(c)
+		},
+		Exec: func(caseText string) string {
+			if strings.HasPrefix(caseText, "A ") {
+				// run in-process (the concurrency family's per-case child process is for crash isolation of
+				// worker-goroutine panics, which these fault-free run-ahead cases do not need)
+				os.Setenv("VERIF_CONC_INPROC", "1")
+				return ExecC05Async(caseText)
+			}
+			if strings.HasPrefix(caseText, "Q ") {
+				return ExecC05Query(caseText)
+			}
+			return execPipe(caseText)
+		},
+	})
 }
 
 func longInts(n, dupEvery int) string {
